@@ -21,11 +21,16 @@ RULE = (
     "operator, where combining a and b raises (the synthesized aggregation form), after 0/1/4 lines, plain / in when / in defn / in let, "
     "on one line or three: the reported line must lie within the form. Likewise enumerated: destructuring targets (let, setv, for, "
     "lfor, with; list, tuple, starred; first or later binding) whose value evaluates but cannot be unpacked (too short, too long, not iterable). "
+    "Variants passthru-op / passthru-get: the raising form is a core operator / subscript form spanning two lines, handed as the last argument to a macro that returns "
+    "that argument unchanged, the macro call starting one or two lines earlier (the reported line must lie in the raising form's own two lines). "
     "Variant py-twice: the raising form is inline Python (py \"BOOM()\") placed at two positions of which exactly one is evaluated. Non-trivial = the raising form is nested >= 2 levels below a "
     "statement-producing construct or inside a function/comprehension; distinct by (source)"
 )
 ASSUMPTIONS = ["reference interpreter decides reachability; only cases where it says the BOOM exception escapes are judged"]
 PRELUDE = ("(defmacro wrap [x] `(do 1 ~x))\n(defmacro mboom [] '(BOOM))\n"
+           # a macro whose expansion is one of its argument forms, returned as it is (the raising form is a core operator form that
+           # starts on a later line than the macro call)
+           "(defmacro passthru [#* args] (get args -1))\n"
            # one Symbol object, built once, spliced into every expansion of mshared: the raising form is that shared atom
            "(eval-and-compile (setv _SHARED (hy.models.Symbol \"UNDEFINED_SHARED_NAME\")))\n(defmacro mshared [] `(do 1 ~_SHARED))\n")
 NAME = "vfprog17"
@@ -237,7 +242,8 @@ def check_case(case):
         c = P.Compiled(prog, mode, name=NAME, multiline=True, prelude=PRELUDE)
     except SyntaxError:
         return None
-    text = {"plain": "(BOOM)", "macro-arg": "(wrap (BOOM))", "macro-template": "(mboom)", "shared-atom": "(mshared)", "py-twice": '(py "BOOM()")'}
+    text = {"plain": "(BOOM)", "macro-arg": "(wrap (BOOM))", "macro-template": "(mboom)", "shared-atom": "(mshared)", "py-twice": '(py "BOOM()")',
+            "passthru-op": "(+ BOOMER\n1)", "passthru-get": "(get BOOMER\n1)"}
     variant = next(v for v in text if '["boom", "%s"]' % v in json.dumps(prog))
     idx = c.src.find(text[variant], len(PRELUDE))
     if idx < 0:
@@ -283,6 +289,8 @@ def check_case(case):
     if not frames:
         return ("no-frame-in-program-file", dict(source=c.src, expected_line=want))
     got = frames[-1].lineno
+    if variant.startswith("passthru") and want <= got <= want + 1:
+        return None  # the raising form spans two lines
     if got != want:
         return ("wrong-line:" + variant, dict(source=c.src, expected_line=want, reported_line=got,
                                                reported_text=c.src.split("\n")[got - 1] if 0 < got <= c.src.count("\n") + 1 else None))
@@ -293,7 +301,7 @@ def shard(ctx):
     from hypothesis import strategies as st
 
     strat = st.tuples(G.program(budget=30 if ctx.quick else 50, depth=4), st.sampled_from(["module", "function"]),
-                      st.sampled_from(["plain", "plain", "macro-arg", "macro-template", "shared-atom", "shared-atom", "py-twice"]))
+                      st.sampled_from(["plain", "plain", "macro-arg", "macro-template", "shared-atom", "shared-atom", "py-twice", "passthru-op", "passthru-get"]))
 
     def one(t):
         prog, mode, variant = t
